@@ -62,8 +62,23 @@ def dyncast_harness():
     h.need_globals = ['_ZTIN10chaiscript9exception22bad_boxed_dynamic_castE', '_ZTIN11verif_types4BaseE', '_ZTIN11verif_types7DerivedE']
     return h
 
+def arity_harness():
+    """D1: Proxy_Function_Base::operator() - the arity gate in front of do_call"""
+    from props.engine_family import FAM as ENG
+    rx = r'^chaiscript::dispatch::Proxy_Function_Base::operator\(\)\('
+    g, info = core.translate(ENG, [rx], [], tag='D1_probe', cuts=[r'arity_error::'])
+    # the vtable slot operator() calls through: read off the generated code (vptr + constant offset)
+    m = re.search(r'v_\d+ = \(v_\d+ \+ \((\d+)\)\);\n\s*v_\d+ = \*\(char\*\*\)v_\d+;\n\s*\(\(void \(\*\)\(char\*, char\*, char\*, char\*\)\)v_\d+\)', core.fread(g))
+    if not m: raise core.BuildError('C06 D1: the virtual call of do_call was not found in the translation of Proxy_Function_Base::operator()')
+    slot = int(m.group(1)) // 8
+    shapes = [dict(FUNC_CALL=core.csym(ENG, rx), DO_CALL_SLOT=slot, NV=n, _tag='values=%d' % n, _witness=('witness: entered', 'witness: arity mismatch')) for n in (0, 1, 2, 3)]
+    h = Harness('D1.arity_gate', ENG, [rx], 'c06_arity.c', cuts=[r'arity_error::'], shapes=shapes, opts=['--unwind', '14'], timeout=120, mem_gb=4, inputs=['ar', 'do_call_throws'],
+                note='arity of the function symbolic (-1 .. 10^6), 0-3 argument values; do_call is a recorder behind a model vtable (slot read off the translated code)')
+    h.need_globals = ['_ZTIN10chaiscript9exception11arity_errorE']
+    return h
+
 def harnesses(tier):
-    hs = [dispatch_harness(tier), dyncast_harness()]
+    hs = [dispatch_harness(tier), dyncast_harness(), arity_harness()]
     shapes = []
     def mk_replay(form):
         def replay(inp, shape, failed):
